@@ -162,6 +162,10 @@ class Plan(object):
         for c in ctxs:
             base = dict(ctx=c, k=k, case=case, exp=exps[c], field=field)
             if c == "init":
+                if k % 4 == 1 and getattr(exps[c], "is_value", False):
+                    # an earlier init of the same field (a default that this one overrides): the later literal is what counts
+                    self.inits.append("init .vi%d with %s" % (k, "424242" if field == "value" else "fa 424242"))
+                    self.reinits = getattr(self, "reinits", 0) + 1
                 self.inits.append("init .vi%d with %s" % (k, lit))
                 self._item(share=".vi%d" % k, stmt=None, **base)
             elif c == "put":
@@ -241,8 +245,12 @@ class Plan(object):
         out += ["  " + s for s in self.inits]
         for fr in self.targets:
             out += ["  " + s for s in fr]
-        out += ["  framer drv be active", "    frame f0"]
+        # the driver's frame is entered twice (one forced re-entry): every statement runs a second time with the very same
+        # literal -- put / set / do leave what they left before, inc adds its literal once more
+        out.insert(1, "  init .vfn with 0")
+        out += ["  framer drv be active", "    frame f0", "      inc .vfn with 1"]
         out += ["      " + s for s in self.drv]
+        out += ["      go me if .vfn == 1"]
         for fr in self.needfr:
             out += ["  " + s for s in fr]
         return "\n".join(out) + "\n"
@@ -336,7 +344,7 @@ def inc_transform(base):
         if e.kind == "ambiguous" and e.alts:
             return L.Exp("ambiguous", alts=[tr(a) for a in e.alts])
         if e.is_value or e.kind == "rt":
-            return L.Exp(e.kind, base + e.value)
+            return L.Exp(e.kind, base + e.value + e.value)      # executed twice (see Plan.render)
         return e
     return tr
 
